@@ -199,6 +199,17 @@ def r234(ctx: Ctx, roles, d: Func) -> None:
             return ("IE", True)
         return None
 
+    # every message that was parsed reaches the subscriber lookup: between the parse and the lookup nothing drops it on
+    # the strength of connection state ("already disconnecting", say) - a call waiting for that message would not get it
+    parse_n = [n for n in g.reachable() if any(isinstance(c.func, ast.Attribute) and c.func.attr in ("MergeFromString", "ParseFromString") for c in node_calls(n))]
+    if len(parse_n) == 1 and subs_lookup:
+        drops = []
+        for l_, s_ in parse_n[0].succ:
+            if l_ == "exc":
+                continue
+            avoid_ = walk(g, {}, lambda n: None, start=s_, blocked=set(subs_lookup))
+            drops += [n for n in avoid_ if n is g.exit or (n.kind == "stmt" and isinstance(n.ast, ast.Return))]
+        ctx.ob("C12.R1", d, "a parsed message always reaches the subscriber lookup", not drops, f"can leave at {[(n.lineno, n.text(40)) for n in drops if n is not g.exit][:2] or 'the end'} without looking up its subscribers")
     has_ie = any(is_index_error_atom(n.ast) for n in g.reachable() if n.ast is not None)
     for h in handlers:
         if not has_ie and not lookup_in_try:
